@@ -1,5 +1,6 @@
 """C06 — evaluating new data reproduces the training encoding: for any rows `is` of the training
 frame, evaluate_new_data returns exactly the rows `is` of the training matrix."""
+import re
 import warnings
 
 import pandas as pd
@@ -32,6 +33,23 @@ ASSUMPTIONS += [
     "(Spec.C06.holds: the training rows of the frame's contents at the time of the call); a failure "
     "that the evaluation of a fresh frame with the same contents shows in exactly the same way is the "
     "one already reported there (known classes D13 / D14) and is only counted",
+]
+ASSUMPTIONS += [
+    "operator stage: a share of the designs holds one term built by a distributive operator whose LEFT "
+    "operand is categorical (a plain factor, a pandas categorical or a C / S / T call): a / b, "
+    "a / (b + c), (a + b) / c, a:(b + c), (a + b):c, a * b, a*(b + c), (a + b)*c, (a + b + c)**2 with b, c "
+    "categorical or numeric (plain or a stateful transform), alone or next to the other terms, with and "
+    "without the intercept, so that one factor occurs in several terms of one design with DIFFERENT "
+    "codings (reduced as main effect, full inside the product); every such design is judged by the "
+    "same row identity (Spec.C06.holds) for the same selections: a new matrix of another width than "
+    "the training matrix is a failure, not a skipped case",
+    "other-design stage: for about half of the designs a SECOND design with the same formula text is "
+    "built, before the first design is asked for anything, on another frame (designs.observe's "
+    "`disturb`): generated afresh (other numeric ranges, other length), and with the levels of every "
+    "categorical column either the same, extended by a level that sorts first / last, reduced by a "
+    "level, or all relabelled (integer ids shifted); the first design's evaluate_new_data is then "
+    "judged by Spec.C06.holds against ITS training matrix as everywhere (a second design is an "
+    "independent object by the statement: nothing about it is compared)",
 ]
 TRUSTED = ["numpy/scipy floating point for scale, bs, poly (parameters are frozen: checked through "
            "the row identity itself)"]
@@ -163,6 +181,75 @@ def run_history(dm, df, idx_a, kind, par, idx_b):
     return out
 
 
+OP_LEFT = ["f", "g", "h", "cu", "co", "C(k)", "C(f, Sum)", "C(g, Sum)", "S(g)", "T(f, 'b')",
+           "C(g, Treatment('v'))", "C(h, Treatment)", "C(cu)", "T(h, 'q')"]
+OP_RIGHT_NUM = ["x", "z", "center(x)", "scale(z)", "I(x + 1)", "poly(z, 2)"]
+OP_SHAPES = ["{a} / {b}", "{a} / {b}", "{a} / {b}", "{a} / ({b} + {c})", "({a} + {b}) / {c}",
+             "{a}:({b} + {c})", "({a} + {b}):{c}", "{a} * {b}", "{a}*({b} + {c})", "({a} + {b})*{c}",
+             "({a} + {b} + {c})**2", "{a} / {b} + {c}", "{c} + {a} / {b}"]
+
+
+def _atom_var(a):
+    toks = re.findall(r"[A-Za-z_][A-Za-z_0-9]*", a)
+    return next(t for t in toks if t in ("f", "g", "h", "cu", "co", "k", "x", "z"))
+
+
+def gen_operator_term(ro):
+    """a term built by a distributive operator; the left operand (and the first of a summed left
+    operand) is categorical, the others categorical or numeric, all over different variables"""
+    a = ro.choice(OP_LEFT)
+    used = {_atom_var(a)}
+    rest = []
+    while len(rest) < 2:
+        t = ro.choice(OP_RIGHT_NUM) if ro.random() < 0.5 else ro.choice(OP_LEFT)
+        if _atom_var(t) not in used:
+            used.add(_atom_var(t))
+            rest.append(t)
+    return ro.choice(OP_SHAPES).format(a=a, b=rest[0], c=rest[1])
+
+
+DISTURB = [None, None, None, "same-levels", "one-more-level", "one-level-fewer", "relabelled",
+           "one-more-level"]
+
+
+def gen_disturb(rd, kind):
+    """another frame for a second design with the same formula text: generated afresh; the levels of
+    its categorical columns are the same / extended by one / reduced by one / all different"""
+    d = designs.gen_frame(rd).reset_index(drop=True)
+    n = len(d)
+    if kind == "same-levels":
+        return d
+    for name in ("f", "g", "h", "yc", "cu", "co", "k", "kz", "one"):
+        col = d[name]
+        is_cat = isinstance(col.dtype, pd.CategoricalDtype)
+        vals = col.tolist()
+        levels = list(col.dtype.categories) if is_cat else sorted(set(vals))
+        if name in ("k", "kz"):
+            new_level = rd.choice([min(levels) - 3, max(levels) + 7, 5])
+            relabel = lambda v: v + 100                                   # noqa: E731
+        else:
+            new_level = rd.choice(["A_new", "zz_new", "n_new"])
+            relabel = lambda v: str(v) + "_2"                             # noqa: E731
+        if kind == "one-more-level":
+            for i in rd.sample(range(n), rd.randrange(1, 3)):
+                vals[i] = new_level
+            pos = rd.randrange(len(levels) + 1)
+            levels = levels[:pos] + [new_level] + levels[pos:]
+        elif kind == "one-level-fewer":
+            if len(levels) < 2:
+                continue
+            gone = rd.choice(levels)
+            keep = [l for l in levels if l != gone]
+            vals = [rd.choice(keep) if v == gone else v for v in vals]
+            levels = keep
+        else:
+            vals = [relabel(v) for v in vals]
+            levels = [relabel(v) for v in levels]
+        d[name] = pd.Categorical(vals, categories=levels, ordered=bool(col.dtype.ordered)) if is_cat \
+            else vals
+    return d
+
+
 def selections(r, n):
     """row selections: single row, subset missing levels, permutation, repetition, shifted range"""
     out = [[r.randrange(n)]]
@@ -219,7 +306,11 @@ def explore(tier, seed, res=None, replay=None):
                 "x 8 row selections (single row, subset, permutation, repetition, first half, triple, "
                 "the rows extreme in neither x nor z, the contents of an edited frame) + one history "
                 "per design (a frame object evaluated, edited in place to other training rows, "
-                "evaluated again on the same matrix objects); non-trivial = a selection that is not "
+                "evaluated again on the same matrix objects); a share of the designs holds a term built "
+                "by a distributive operator (/ : * ** over sums) with a categorical left operand, with "
+                "and without intercept; for half of the designs a second design with the same formula "
+                "text is built on another frame (other levels / level count / labels) before the first "
+                "is evaluated on new data; non-trivial = a selection that is not "
                 "the identity on a design with a categorical or stateful atom; distinct by (formula, "
                 "selection)")
     n_cases = 300 if tier == "quick" else 10000
@@ -247,6 +338,22 @@ def explore(tier, seed, res=None, replay=None):
         u1, a1, u2, a2 = r2.random(), r2.choice(KNOT_ATOMS), r2.random(), r2.choice(KNOT_ATOMS)
         if f is None and u1 < 0.3:
             formula += " + " + a1 + (" + " + a2 if u2 < 0.25 and a2 != a1 else "")
+        # operator stage (own stream, drawn unconditionally)
+        ro = rng_for(seed, "c06", path, "operators")
+        uo, op_term, alone, op_icpt = ro.random(), gen_operator_term(ro), ro.random(), ro.choice(["", "0 + "])
+        if f is None and uo < 0.3:
+            if alone < 0.4:
+                formula = "y ~ " + op_icpt + op_term
+            else:
+                formula += " + " + op_term
+            res.count("designs with a distributive operator over a categorical left operand"
+                      + (" (no intercept)" if " ~ 0 + " in formula else " (intercept)"))
+        # other-design stage (own stream, drawn unconditionally: a replay builds the same second design)
+        rd = rng_for(seed, "c06", path, "other-design")
+        dist_kind = rd.choice(DISTURB)
+        disturb = gen_disturb(rd, dist_kind) if dist_kind else None
+        if dist_kind:
+            res.count("second design with the same formula text built first: " + dist_kind)
         if "knots=" in formula:
             res.count("designs with bs(v, knots=<namespace>)"
                       + (" and a written bound" if "_bound" in formula else ""))
@@ -255,8 +362,10 @@ def explore(tier, seed, res=None, replay=None):
         kind, par, idx_b = plan_history(rh, df, idx_a)
         sels = sels + [interior_rows(df), idx_b]
         news += [{"df": designs.scramble_index(r2, df.iloc[idx]), "mode": "error"} for idx in sels[-2:]]
-        obs, req = designs.observe(formula, df, names, news)
+        obs, req = designs.observe(formula, df, names, news, disturb=disturb)
         case = {"formula": formula, "seed_path": path}
+        if dist_kind:
+            case["second_design_same_formula_built_first_on"] = "another generated frame, " + dist_kind
         if req is None:
             res.count("impl_error:" + obs["err"])
             continue
